@@ -28,7 +28,12 @@ pub struct Case {
 }
 
 fn shape(items: &[Item]) -> String {
-    let e = |e: &ErrSpec| if e.severity_error { "E" } else { "W" };
+    let e = |e: &ErrSpec| match (e.severity_error, e.abbreviated != 0) {
+        (true, false) => "E",
+        (false, false) => "W",
+        (true, true) => "E-abbreviated",
+        (false, true) => "W-abbreviated",
+    };
     items
         .iter()
         .map(|i| match i {
@@ -193,7 +198,10 @@ impl Prop for C08 {
         // bounded-exhaustive: all child sequences of length <= 3
         let e = Item::Err(ErrSpec::simple(true));
         let w = Item::Err(ErrSpec::simple(false));
-        let top = [Item::Ok, Item::Data("<x/>".into()), e.clone(), w.clone()];
+        // an rpc-error in the abbreviated form Junos uses for CLI-layer messages
+        // (severity and message only)
+        let abbreviated = ErrSpec { abbreviated: 3, info: Vec::new(), ..ErrSpec::simple(true) };
+        let top = [Item::Ok, Item::Data("<x/>".into()), e.clone(), w.clone(), Item::Err(abbreviated.clone())];
         let mut seqs: Vec<Vec<Item>> = vec![vec![]];
         let mut frontier: Vec<Vec<Item>> = vec![vec![]];
         for _ in 0..3 {
@@ -235,6 +243,7 @@ impl Prop for C08 {
             Inner::Ok,
             Inner::Err(ErrSpec::simple(true)),
             Inner::Err(ErrSpec::simple(false)),
+            Inner::Err(abbreviated.clone()),
             Inner::Count(0),
             Inner::Count(1),
             Inner::Count(2),
@@ -314,6 +323,9 @@ impl Prop for C08 {
         });
         let errors = doc_errors(&case.items);
         let has_err = errors.iter().any(|e| e.severity_error);
+        if errors.iter().any(|e| e.abbreviated != 0) {
+            obs.class("doc:abbreviated-rpc-error");
+        }
         let positive = has_positive(kind, &case.items);
         obs.class(format!("kind:{kind:?}"));
         obs.class(format!(
@@ -357,7 +369,9 @@ impl Prop for C08 {
                 let expected: Vec<String> = errors.iter().map(|e| e.expected_debug()).collect();
                 // (in a generated style only the two "=> not Ok" oracles apply: equivalence of
                 // what is read under re-serialisation is C13's subject)
-                if fixture_style && *list != expected {
+                // (an abbreviated rpc-error cannot be represented in the library's Error type:
+                // only "not Ok" is asserted for documents that hold one)
+                if fixture_style && !errors.iter().any(|e| e.abbreviated != 0) && *list != expected {
                     obs.fail(
                         format!("reported-errors-differ:{kind:?}:{sh}"),
                         format!(
